@@ -55,7 +55,10 @@ ELEMENT = {'absent-column': 'ghost', 'name-for-two-kinds': 'x1', 'draw-outside-m
 # judged at every entry point (the library has explicit code to report them there)
 REFERENCE_FAULTS = ('absent-column', 'name-for-two-kinds', 'logit-availabilities-not-matching-utilities',
                     'logit-utility-without-availability', 'logit-choice-outside-utilities')
-BIOGEME_ENTRIES = ('biogeme_expr', 'biogeme_dict', 'biogeme_dict_weight')
+BIOGEME_ENTRIES = ('biogeme_expr', 'biogeme_dict', 'biogeme_dict_weight', 'biogeme_simulate', 'biogeme_weight_formula')
+# biogeme_simulate: the formula is one of a dictionary of formulas meant for simulation (no log likelihood), evaluated by
+# BIOGEME.simulate; biogeme_weight_formula: the formula is the WEIGHT formula of a model whose log likelihood is valid
+ROW_ENTRIES = ('get_value_c', 'get_value_and_derivatives', 'biogeme_simulate')
 EXPR_ENTRIES = ('get_value_c', 'get_value_and_derivatives')
 
 # fillers without data variables (so that the planted element is the only fault)
@@ -125,6 +128,12 @@ PANEL_ROWS = [dict(r, id=float(i // 2 + 1)) for i, r in enumerate(G.ROWS[:4])]
 PANEL_COLS = G.COLUMNS + ['id']
 
 
+OTHER_FORMULA = ('*', ('beta', 'b_z'), ('var', 'x2'))
+OTHER_FORMULA_PANEL = ('traj', ('exp', ('*', ('beta', 'b_z'), ('var', 'x2'))))
+LL_FOR_WEIGHT = ('*', ('beta', 'b_z'), ('var', 'x2'))
+LL_FOR_WEIGHT_PANEL = ('log', ('traj', ('exp', ('*', ('beta', 'b_z'), ('var', 'x2')))))
+
+
 def make_database(panel=False):
     from vf.engine import make_db
     if panel:
@@ -134,12 +143,14 @@ def make_database(panel=False):
     return make_db(G.ROWS, G.COLUMNS)
 
 
-def enter(entry, term, panel=False, rows=None):
+def enter(entry, term, panel=False, rows=None, db=None):
     """Runs one entry form on a freshly built expression; returns the value(s) if a number came back."""
     from vf.engine import make_biogeme, make_db
     import numpy as np
     expr = R.Builder(spec()).build(term)
-    if rows is not None:
+    if db is not None:
+        pass
+    elif rows is not None:
         db = make_db(rows, G.COLUMNS)
     else:
         db = make_database(panel)
@@ -150,6 +161,13 @@ def enter(entry, term, panel=False, rows=None):
     elif entry == 'biogeme_dict_weight':
         w = R.Builder(spec()).build(('num', 1.0))
         b = make_biogeme(db, {'log_like': expr, 'weight': w}, number_of_draws=4)
+    elif entry == 'biogeme_simulate':
+        b = make_biogeme(db, {'other': R.Builder(spec()).build(OTHER_FORMULA_PANEL if panel else OTHER_FORMULA), 'f': expr}, number_of_draws=4)
+        out = b.simulate(b.get_beta_values())
+        return [float(v) for v in out['f']]
+    elif entry == 'biogeme_weight_formula':
+        ll = R.Builder(spec()).build(LL_FOR_WEIGHT_PANEL if panel else LL_FOR_WEIGHT)
+        b = make_biogeme(db, {'log_like': ll, 'weight': expr}, number_of_draws=4)
     elif entry == 'get_value_c':
         return [float(v) for v in np.atleast_1d(expr.get_value_c(database=db, number_of_draws=4, prepare_ids=True))]
     elif entry == 'get_value_and_derivatives':
@@ -189,6 +207,9 @@ def tasks(tier, seed):
         t.append(dict(part='valid', lo=i, hi=min(i + 8, len(st)), tier=tier))
     # (b) structural faults
     t.append(dict(part='structural'))
+    # (d') valid data: numeric dtypes of every width / signedness, columns that join the table after the Database was made
+    t.append(dict(part='valid_data', what='dtypes'))
+    t.append(dict(part='valid_data', what='late'))
     # (c) missing data
     for fi in range(len(MD_FORMULAS)):
         for (r, c) in itertools.product(range(3), range(len(MD_COLS))):
@@ -221,6 +242,8 @@ def run_task(task):
         _valid(task, rec)
     elif part == 'structural':
         _structural(rec)
+    elif part == 'valid_data':
+        _valid_data(task, rec)
     elif part == 'missing':
         _missing(task, rec)
     elif part == 'sticky':
@@ -253,6 +276,10 @@ def _judge(rec, fault, entry, p, s, wrapper, term, panel, case):
     except Exception as e:
         if is_library_error(e):
             named = ELEMENT[fault].lower() in str(e).lower()
+            if not named and G.slot_name(p, s) == 'choice' and 'alternative' in str(e).lower():
+                # planted as the choice of a logit the element is a second fault as well (its values are not alternatives):
+                # a message explaining that one is an explanatory message too
+                named = True
             rec.case(key, (fault, entry, p, s, wrapper, 'BiogemeError', named), outcome=('refused', named))
             if not named:
                 rec.violation(f'C12|error-does-not-name-the-element|{where}',
@@ -286,6 +313,7 @@ def _plant(task, rec):
                 term = build_faulty(p, s, fault, wrapper, novar=panel)
             except Exception:
                 continue
+            raw_term = term
             if panel:
                 # a valid trajectory times the faulty part: the planted variable is the only one outside the trajectory
                 term = ('*', ('traj', ('exp', ('*', ('beta', 'b_z'), ('var', 'x2')))), term)
@@ -297,7 +325,8 @@ def _plant(task, rec):
                 entries += list(EXPR_ENTRIES)
             for entry in entries:
                 case = dict(part='plant', fault=fault, p=p, s=s, wrapper=list(wrapper) if wrapper else None, entry=entry, tier=tier)
-                _judge(rec, fault, entry, p, s, wrapper, term, panel, case)
+                # as a weight formula on panel data the faulty part stands alone (a trajectory has no place in a weight)
+                _judge(rec, fault, entry, p, s, wrapper, raw_term if (panel and entry == 'biogeme_weight_formula') else term, panel, case)
 
 
 def _plant_engine(task, rec):
@@ -351,8 +380,17 @@ def _valid(task, rec):
                                   f'valid formula {R.show(term)} rejected by {entry}: {type(e).__name__}: {str(e)[:200]}', case,
                                   observed=repr(e)[:300])
                     rec.retire = True
+                    from vf.engine import is_engine_error
+                    if is_engine_error(e):
+                        rec.count('valid_tasks_cut_short_after_engine_error')
+                        return          # the engine's error is sticky in this process: nothing after it can be judged
                     continue
-                want = refs if entry in EXPR_ENTRIES else [sum(refs)]
+                if entry in ROW_ENTRIES:
+                    want = refs
+                elif entry == 'biogeme_weight_formula':
+                    want = [sum(w * R.evaluate(LL_FOR_WEIGHT, row, full) for w, row in zip(refs, rows))]
+                else:
+                    want = [sum(refs)]
                 ok = len(out) == len(want) and all(R.close(a, b, rel=1e-9) for a, b in zip(out, want))
                 rec.case(None, ('valid', entry, p, s, wrapper, [round(v, 8) for v in out]), outcome=('accepted', ok))
                 rec.count('valid_skeleton_evaluations')
@@ -362,12 +400,106 @@ def _valid(task, rec):
     # valid panel skeleton: everything inside the trajectory
     for entry in BIOGEME_ENTRIES:
         term = ('log', ('traj', ('exp', ('*', ('beta', 'b_z'), ('var', 'x1')))))
+        if entry == 'biogeme_weight_formula':
+            term = ('+', ('num', 1.5), ('beta', 'b_z'))     # a weight on panel data: no data variable
         try:
             enter(entry, term, panel=True)
             rec.case(None, ('valid-panel', entry), outcome='accepted')
         except Exception as e:
             rec.violation(f'C12|valid-specification-rejected-{type(e).__name__}|entry={entry}:panel',
                           f'valid panel formula rejected: {e}', dict(part='valid_panel', entry=entry))
+
+
+# ------------------------------------------------------------------ (d') valid data
+VD_DTYPES = ['int64', 'int32', 'int16', 'int8', 'uint8', 'uint16', 'uint32', 'uint64', 'float32', 'float64']
+VD_INT_COLS = ['choice', 'av2', 'z', 'unused']          # whole-number columns: every numeric dtype represents them exactly
+VD_ROLES = {
+    # role of the late column in a valid formula ('late' holds whole numbers 0/1/2 like z, or 1/0 like av2)
+    'utility': ('loglogit', ('var', 'choice'), ((1, ('*', ('beta', 'b_z'), ('var', 'late')), None),
+                                                 (2, ('*', ('beta', 'B2'), ('var', 'x2')), ('var', 'av2')), (3, ('num', 0.25), None))),
+    'availability': ('loglogit', ('var', 'choice'), ((1, ('*', ('beta', 'b_z'), ('var', 'x1')), None),
+                                                      (2, ('*', ('beta', 'B2'), ('var', 'x2')), ('var', 'late')), (3, ('num', 0.25), None))),
+    'condition': ('+', ('*', ('>', ('var', 'late'), ('num', 0.5)), ('var', 'x1')), ('beta', 'b_z')),
+    'key': ('elem', ('var', 'late'), ((0, ('var', 'x1')), (1, ('beta', 'b_z')), (2, ('*', ('var', 'x2'), ('beta', 'B2'))))),
+}
+VD_WAYS = ['at-creation', 'assigned-to-data-afterwards', 'add_column', 'define_variable']
+
+
+def _valid_data(task, rec):
+    """A specification without a fault is never rejected: the same valid formulas on tables whose whole-number columns have
+    every numeric dtype (signed / unsigned / float, every width), and on tables one of whose columns joined after the
+    Database object was made (plain assignment to database.data, add_column, define_variable) -- every role of that column
+    (utility, availability, condition, selection key), every entry form; the value must be the reference value."""
+    import numpy as np
+    import pandas as pd
+    import biogeme.database as bdb
+    full = dict(G.PARAMS)
+    full['x1'] = 0.5
+    entries = BIOGEME_ENTRIES + EXPR_ENTRIES
+
+    def run(entry, term, mkdb, rows, label, case):
+        refs = [R.evaluate(term, row, full) for row in rows]
+        if entry in ROW_ENTRIES:
+            want = refs
+        elif entry == 'biogeme_weight_formula':
+            want = [sum(w * R.evaluate(LL_FOR_WEIGHT, row, full) for w, row in zip(refs, rows))]
+        else:
+            want = [sum(refs)]
+        key = ('valid_data', label, entry)
+        try:
+            out = enter(entry, term, db=mkdb())
+        except Exception as e:
+            rec.case(key, (label, entry, type(e).__name__), outcome='rejected')
+            rec.violation(f'C12|valid-specification-rejected-{type(e).__name__}|entry={entry}:data={label[0]}',
+                          f'valid formula {R.show(term)} on valid data ({label}) rejected by {entry}: {type(e).__name__}: {str(e)[:200]}',
+                          case, observed=repr(e)[:300])
+            from vf.engine import is_engine_error
+            if is_engine_error(e):
+                rec.retire = True
+                raise StopTask()
+            return
+        ok = len(out) == len(want) and all(R.close(a, b, rel=1e-9) for a, b in zip(out, want))
+        rec.case(key, (label, entry, [round(v, 8) for v in out]), outcome=('accepted', ok))
+        if not ok:
+            rec.violation(f'C12|valid-specification-wrong-value|entry={entry}:data={label[0]}',
+                          f'{R.show(term)} on {label} via {entry}: {out} expected {want}', case, expected=want, observed=out)
+
+    try:
+        if task['what'] == 'dtypes':
+            term = VD_ROLES['availability']
+            term = R.subst(term, {('var', 'late'): ('var', 'av2')})
+            term2 = R.subst(VD_ROLES['key'], {('var', 'late'): ('var', 'z')})
+            for dt in VD_DTYPES:
+                for cols in [[c] for c in VD_INT_COLS] + [list(VD_INT_COLS)]:
+                    def mkdb(dt=dt, cols=cols):
+                        df = pd.DataFrame({c: [r[c] for r in G.ROWS] for c in G.COLUMNS})
+                        for c in cols:
+                            df[c] = df[c].astype(dt)
+                        return bdb.Database('t', df)
+                    for ti, tm in enumerate((term, term2)):
+                        for entry in entries:
+                            label = ('dtype', dt, '+'.join(cols), ti)
+                            run(entry, tm, mkdb, G.ROWS, label, dict(part='valid_data', what='dtypes'))
+        else:
+            for role, term in VD_ROLES.items():
+                src = 'av2' if role in ('availability', 'condition') else 'z'
+                rows = [dict(r, late=r[src]) for r in G.ROWS]
+                for way in VD_WAYS:
+                    def mkdb(way=way, src=src):
+                        cols = G.COLUMNS + (['late'] if way == 'at-creation' else [])
+                        df = pd.DataFrame({c: [r[c] for r in rows] for c in cols})
+                        d = bdb.Database('t', df)
+                        if way == 'assigned-to-data-afterwards':
+                            d.data['late'] = [r['late'] for r in rows]
+                        elif way == 'add_column':
+                            d.add_column(R.Builder(spec()).build(('*', ('var', src), ('num', 1.0))), 'late')
+                        elif way == 'define_variable':
+                            d.define_variable('late', R.Builder(spec()).build(('*', ('var', src), ('num', 1.0))))
+                        return d
+                    for entry in entries:
+                        run(entry, term, mkdb, rows, ('late-column', way, role), dict(part='valid_data', what='late'))
+    except StopTask:
+        rec.count('valid_data_cut_short_after_engine_error')
 
 
 # ------------------------------------------------------------------ (b) structural faults
@@ -683,7 +815,7 @@ def replay(case):
         wrapper = tuple(case['wrapper']) if case.get('wrapper') else None
         panel = case['fault'] == 'panel-variable-outside-trajectory'
         term = build_faulty(case['p'], case['s'], case['fault'], wrapper, novar=panel)
-        if panel:
+        if panel and case['entry'] != 'biogeme_weight_formula':
             term = ('*', ('traj', ('exp', ('*', ('beta', 'b_z'), ('var', 'x2')))), term)
         try:
             _judge(rec, case['fault'], case['entry'], case['p'], case['s'], wrapper, term, panel, case)
@@ -691,6 +823,8 @@ def replay(case):
             pass
     elif part == 'plant_engine':
         _plant_engine(case, rec)
+    elif part == 'valid_data':
+        _valid_data(case, rec)
     elif part in ('valid', 'valid_panel'):
         st = list(sites())
         idx = [i for i, (p, s) in enumerate(st) if p == case.get('p') and s == case.get('s')]
